@@ -165,7 +165,7 @@ def run_property(prop, tier, seed, jobs=None, only=None):
         with concurrent.futures.ProcessPoolExecutor(max_workers=jobs, mp_context=ctxm) as ex:
             futs = {ex.submit(_run_shard, w): w for w in work}
             try:
-                for f in concurrent.futures.as_completed(futs, timeout=getattr(mod, "WATCHDOG_S", {}).get(tier, 3000)):
+                for f in concurrent.futures.as_completed(futs, timeout=getattr(mod, "WATCHDOG_S", {}).get(tier, 900 if tier == "quick" else 3400)):
                     try:
                         results.append(f.result())
                     except Exception as e:  # worker died
@@ -175,7 +175,13 @@ def run_property(prop, tier, seed, jobs=None, only=None):
                     futs[f][3] for f in futs if not f.done()])
                 for f in futs:
                     f.cancel()
+                procs = list(getattr(ex, "_processes", {}).values())
                 ex.shutdown(wait=False, cancel_futures=True)
+                for p in procs:      # a wall-clock watchdog: the verdict is inconclusive, and the stuck workers must not outlive the check
+                    try:
+                        p.kill()
+                    except Exception:
+                        pass
     # ---- merge
     evals = 0
     classes = collections.Counter()
